@@ -207,7 +207,7 @@ def run(ck):
     ck.evaluations += total
     ck.extra["faulted_and_recovery_renders"] = total
     ck.exhaustive = False
-    ck.extra["excluded_shapes"] = ["faults in __len__", "faulty iterables consumed by first / last / length / in",
+    ck.extra["excluded_shapes"] = ["faulty iterables consumed by first / last / length / in",
                                    "capability tests on raising objects"]
 
 
